@@ -641,6 +641,29 @@ def check_C18(tier):
         mixes.append(t)
     trace_validate(rep, "C18_mix_on", de.record_decoder(mixes, "default", True), "default", True)
     trace_validate(rep, "C18_mix_off", de.record_decoder(mixes, "default", False), "default", False)
+    # text that is not a well-formed SELFIES string: the flag changes nothing there either (same outcome kind, and
+    # the specification's outcome for the text) - enumerated text without legacy symbols, and legacy / modern
+    # mixes cut at an arbitrary character
+    chars = ["[", "]", ".", "C", "x"]
+    results, vectors = de.run_decoder_tlc("c18text", [], "default", 0, emit=True, emit_name="TextEmit", spec="TextSpec",
+                                          extends="DecodeText", raw=(chars, 5 if quick else 7), fastjit=quick)
+    add_results(rep, "text<=%d over %s, flag on and off" % (5 if quick else 7, "".join(chars)), results, vectors=len(vectors))
+    for v in vectors:
+        a, b = de.call_decoder(v["raw"], False), de.call_decoder(v["raw"], True)
+        rep.traces += 1
+        if a != b:
+            rep.violation("compatible=True changes the outcome for the text %r: %r vs %r" % (v["raw"], a, b), {"input": v["raw"]})
+    cuts = []
+    for t in mixes[: (150 if quick else 1500)]:
+        s_ = "".join(t)[:600]
+        for _ in range(2):
+            cuts.append(s_[: rng.randint(1, len(s_))])
+    for flag in (True, False):
+        recs = []
+        for c_ in cuts:
+            kind, val = de.call_decoder(c_, flag)
+            recs.append({"raw": c_, "kind": kind, "out": val})
+        trace_validate(rep, "C18_cut_%s" % flag, recs, "default", flag)
     rep.exhaustive = True
     return rep.finish()
 
@@ -707,10 +730,31 @@ def check_C16(tier):
         q = 256 * (IDX.index(a) if a in IDX else 0) + 16 * (IDX.index(b) if b in IDX else 0) + \
             (IDX.index(c) if c in IDX else 0)
         inputs.append(["[C]"] * (q + 4) + ["[Ring3]", a, b, c, "[C]"])
+    # every CLASS of symbol in an index position: atoms, branch / ring symbols, legacy spellings, symbols outside
+    # the grammar - all count as zero, with and without the compatible flag
+    others = ["[13CH3]", "[N+1]", "[=O]", "[#C]", "[/C]", "[Ring3]", "[#Branch3]", "[=Branch1]", "[-/Ring2]", "[epsilon]",
+              "[Foo]", "[Branch1_2]", "[Branch2_1]", "[Expl=Ring1]", "[Oexpl]", "[=Nexpl]", "[#Cexpl]", "[Sexpl]", "[C@@Hexpl]"]
+    legacy_inputs = []
+    for o in others:
+        for ctx in (["[C]"] * 20 + ["[Ring1]", o, "[C]"], ["[C]"] * 20 + ["[Ring2]", "[Ring1]", o, "[C]"],
+                    ["[C]"] * 40 + ["[Ring2]", o, "[Ring1]", "[C]"], ["[C]"] * 3 + ["[Branch1]", o] + ["[C]"] * 12,
+                    ["[C]"] * 3 + ["[Branch2]", o, "[Ring2]"] + ["[C]"] * 12):
+            (legacy_inputs if ("expl" in o.lower() or "_" in o) else inputs).append(ctx)
+    # index symbols that lie past the budget of the branch in which their ring / branch symbol stands: they are
+    # still read from the stream (and count against no budget)
+    for a in digits[:: (3 if quick else 1)]:
+        for pre in (4, 20):
+            inputs.append(["[C]"] * pre + ["[Branch1]", "[C]", "[Ring1]", a, "[O]", "[N]"])
+            inputs.append(["[C]"] * pre + ["[Branch1]", "[Ring1]", "[C]", "[Ring2]", a, "[Ring1]", "[O]", "[N]"])
+            inputs.append(["[C]"] * pre + ["[=Branch1]", "[Ring1]", "[C]", "[Branch1]", a, "[O]", "[N]", "[S]", "[P]"])
+            inputs.append(["[C]"] * pre + ["[Branch1]", "[Ring2]", "[C]", "[Branch1]", "[C]", "[Ring1]", a, "[O]", "[N]"])
     recs = de.record_decoder(inputs, "default")
     for rec in recs:
         rep.case(tuple(rec["inp"][-5:]) + (len(rec["inp"]),), nontrivial=True)
     rep.sample({"input": "[C]*300 + [Ring2][=N][S][C]", "meaning": "ring closes 16*11+14+1 atoms back"})
+    for compat in (False, True):
+        lrecs = de.record_decoder(legacy_inputs, "default", compat)
+        trace_validate(rep, "C16_legacy_%s" % compat, lrecs, "default", compat)
     trace_validate(rep, "C16_decoder", recs, "default")
     try:
         import checks_enc
